@@ -256,6 +256,62 @@ Definition spec_funset (a b : value) : sres :=
   | _, _ => SErr
   end.
 
+(* ------------------------------------------------------------------ EXCEPT *)
+Fixpoint supd (l : list value) (n : nat) (x : value) : list value :=
+  match l, n with
+  | [], _ => []
+  | _ :: r, O => x :: r
+  | y :: r, S n' => y :: supd r n' x
+  end.
+
+Fixpoint graph_set (kvs : list (value * value)) (k nv : value) : list (value * value) :=
+  match kvs with
+  | [] => []
+  | (k', v) :: r => if veqb k' k then (k', nv) :: r else (k', v) :: graph_set r k nv
+  end.
+
+(* one substitution  [f EXCEPT ![k1]...[kn] = g(@)]  on a value in normal form.
+   Second component: a key outside the domain was met.  TLA+ (and TLC, with a warning) leave the
+   function unchanged there; the statement lets the fragment fail loudly instead.
+   A tuple at a non-integral index and EXCEPT on a non-function are errors in TLC. *)
+Fixpoint spec_except1 (f : value) (keys : list value) (g : value -> sres) : sres * bool :=
+  match keys with
+  | [] => (g f, false)
+  | k :: rest =>
+      match f with
+      | VTup xs =>
+          match k with
+          | VNum i =>
+              if (1 <=? i) && (i <=? Z.of_nat (List.length xs)) then
+                match nth_error xs (Z.to_nat (i - 1)) with
+                | Some v => let (r, o) := spec_except1 v rest g in
+                            (sbind r (fun nv => SOk (VTup (supd xs (Z.to_nat (i - 1)) nv))), o)
+                | None => (SErr, false)
+                end
+              else (SOk f, true)
+          | _ => (SErr, false)
+          end
+      | VFun kvs =>
+          match lookup kvs k with
+          | Some v => let (r, o) := spec_except1 v rest g in
+                      (sbind r (fun nv => SOk (VFun (graph_set kvs k nv))), o)
+          | None => (SOk f, true)
+          end
+      | _ => (SErr, false)
+      end
+  end.
+
+(* [f EXCEPT !p1 = e1, ..., !pn = en]: the substitutions apply from left to right *)
+Fixpoint spec_except (f : value) (subs : list (list value * (value -> sres))) : sres * bool :=
+  match subs with
+  | [] => (SOk f, false)
+  | (keys, g) :: rest =>
+      match spec_except1 f keys g with
+      | (SOk f', o) => let (r, o') := spec_except f' rest in (r, o || o')
+      | (SErr, o) => (SErr, o)
+      end
+  end.
+
 (* ------------------------------------------------------------------ binders (predicates / bodies total on the sets) *)
 Definition spec_forall (vs : list value) (p : list value -> bool) : sres :=
   match sets_of vs with Some sets => s_bool (forallb p (sproduct sets)) | None => SErr end.
